@@ -150,3 +150,16 @@ func UnknownHash(i int) bitcoin.Hash32 {
 
 // RH converts to the reference hash type.
 func RH(h bitcoin.Hash32) ref.Hash { return ref.Hash(h) }
+
+// LabelOf returns the label of a universe header that has been derived already ("" if none).
+func LabelOf(h bitcoin.Hash32) string {
+	r := ""
+	universe.Range(func(k, v any) bool {
+		if v.(*UHeader).Hash == h {
+			r = k.(string)
+			return false
+		}
+		return true
+	})
+	return r
+}
